@@ -34,7 +34,16 @@ const (
 	clsLoop  = 2 // first statement of a loop body
 	clsStmt  = 4 // any other statement
 	clsToken = 8 // entry of the lexer's token step
+	// clsGlobal: the enclosing function mentions a package-level variable of its package:
+	// where interleavings can matter (what the preemption sweep and the rare-site strategy prefer)
+	clsGlobal = 16
 )
+
+// pkgVars[dir] = names of the package-level variables declared in the package in dir.
+var pkgVars = map[string]map[string]bool{}
+
+// exportedVars: exported package-level variables of any package of the module.
+var exportedVars = map[string]bool{}
 
 type site struct {
 	File  string `json:"file"`
@@ -49,9 +58,27 @@ type insertion struct {
 }
 
 var (
-	modPath string
-	sites   []site
+	modPath      string
+	sites        []site
+	curVars      map[string]bool // package-level variables of the package being instrumented
+	inGlobalFunc bool
 )
+
+// mentionsGlobal reports whether the function body mentions a package-level variable of its
+// package (by name; shadowing is ignored: an over-approximation is fine for a heuristic).
+func mentionsGlobal(body *ast.BlockStmt) bool {
+	if body == nil || len(curVars)+len(exportedVars) == 0 {
+		return false
+	}
+	found := false
+	ast.Inspect(body, func(n ast.Node) bool {
+		if id, ok := n.(*ast.Ident); ok && (curVars[id.Name] || exportedVars[id.Name]) {
+			found = true
+		}
+		return !found
+	})
+	return found
+}
 
 func main() {
 	root := flag.String("root", "", "root of the scratch copy of the module")
@@ -100,6 +127,37 @@ func main() {
 	}
 	sort.Strings(files)
 
+	// package-level variables, per package directory
+	for _, f := range files {
+		src, err := os.ReadFile(f)
+		if err != nil {
+			fatal("%v", err)
+		}
+		af, err := parser.ParseFile(token.NewFileSet(), f, src, parser.SkipObjectResolution)
+		if err != nil {
+			fatal("parse %s: %v", f, err)
+		}
+		dir := filepath.Dir(f)
+		if pkgVars[dir] == nil {
+			pkgVars[dir] = map[string]bool{}
+		}
+		for _, d := range af.Decls {
+			if gd, ok := d.(*ast.GenDecl); ok && gd.Tok == token.VAR {
+				for _, sp := range gd.Specs {
+					if vs, ok := sp.(*ast.ValueSpec); ok {
+						for _, n := range vs.Names {
+							if n.Name != "_" {
+								pkgVars[dir][n.Name] = true
+								if n.IsExported() {
+									exportedVars[n.Name] = true // reachable from the other packages as pkg.Name
+								}
+							}
+						}
+					}
+				}
+			}
+		}
+	}
 	// the simulated sync primitives are only sound if every goroutine that touches them is a
 	// simulated task: a tree that starts goroutines inside the library keeps the real package
 	if *repoint {
@@ -146,10 +204,11 @@ func main() {
 		pkgs[filepath.Dir(rel)] = true
 		for _, im := range af.Imports {
 			switch ip, _ := strconv.Unquote(im.Path.Value); ip {
-			case "time", "math/rand", "math/rand/v2", "crypto/rand", "os", "runtime", "weak", "unique", "hash/maphash":
+			case "time", "math/rand", "math/rand/v2", "crypto/rand", "os", "runtime", "weak", "unique", "hash/maphash", "unsafe", "reflect":
 				uncontrolled[ip] = append(uncontrolled[ip], rel)
 			}
 		}
+		curVars = pkgVars[filepath.Dir(f)]
 		res := instrumentFile(fset, af, src, rel, *repoint)
 		if res.importsSync {
 			syncFiles = append(syncFiles, rel)
@@ -200,6 +259,9 @@ func main() {
 		}
 		if s.Class&clsToken != 0 {
 			cnt["token"]++
+		}
+		if s.Class&clsGlobal != 0 {
+			cnt["in-functions-mentioning-package-variables"]++
 		}
 	}
 	summary["sites_by_class"] = cnt
@@ -278,6 +340,9 @@ func instrumentFile(fset *token.FileSet, af *ast.File, src []byte, rel string, r
 		if class&clsFunc != 0 && (funcName == "Lexer.nextToken") {
 			class |= clsToken
 		}
+		if inGlobalFunc {
+			class |= clsGlobal
+		}
 		sites = append(sites, site{File: rel, Line: pos.Line, Func: funcName, Class: class})
 		ins = append(ins, insertion{off: off(p), text: fmt.Sprintf("__vsim.Y(%d);", id)})
 	}
@@ -298,6 +363,9 @@ func instrumentFile(fset *token.FileSet, af *ast.File, src []byte, rel string, r
 		// `{}` -> `{__vsim.Y(n);}`
 		pos := fset.Position(b.Lbrace)
 		id := len(sites)
+		if inGlobalFunc {
+			class |= clsGlobal
+		}
 		sites = append(sites, site{File: rel, Line: pos.Line, Func: funcName, Class: class})
 		ins = append(ins, insertion{off: off(b.Lbrace) + 1, text: fmt.Sprintf("__vsim.Y(%d);", id)})
 	}
@@ -328,7 +396,10 @@ func instrumentFile(fset *token.FileSet, af *ast.File, src []byte, rel string, r
 				if x.Recv != nil && len(x.Recv.List) > 0 {
 					funcName = recvName(x.Recv.List[0].Type) + "." + x.Name.Name
 				}
+				oldG := inGlobalFunc
+				inGlobalFunc = mentionsGlobal(x.Body)
 				walkBody(x.Body, clsFunc)
+				inGlobalFunc = oldG
 				funcName = old
 				return false
 			case *ast.FuncLit:
@@ -436,7 +507,7 @@ func writeSiteTable(path string) {
 	var b bytes.Buffer
 	b.WriteString("// Code generated by verif instrument; DO NOT EDIT.\n\npackage verifsimrt\n\n")
 	fmt.Fprintf(&b, "// NumSites is the number of yield sites in the instrumented tree.\nconst NumSites = %d\n\n", len(sites))
-	b.WriteString("// SiteClass[i] is the class bit set of site i (1 func entry, 2 loop body, 4 statement, 8 token step).\nvar SiteClass = [...]uint8{")
+	b.WriteString("// SiteClass[i] is the class bit set of site i (1 func entry, 2 loop body, 4 statement, 8 token step, 16 function mentions a package-level variable).\nvar SiteClass = [...]uint8{")
 	for i, s := range sites {
 		if i%32 == 0 {
 			b.WriteString("\n\t")
